@@ -178,8 +178,9 @@ def correspondence(kernel, seed, count, tier, workdir):
     exp = os.path.join(workdir, kernel + ".exp")
     got = os.path.join(workdir, kernel + ".got")
     stats = os.path.join(workdir, kernel + ".stats")
+    wit = os.path.join(workdir, kernel + ".wit")
     env = dict(os.environ, VERIF_TIER=tier, GOMAXPROCS=os.environ.get("GOMAXPROCS", "8"))
-    rc, out, err = sh([os.path.join(BIN, "hinternal"), kernel, str(seed), str(count), ops, exp, stats], env=env, timeout=3000)
+    rc, out, err = sh([os.path.join(BIN, "hinternal"), kernel, str(seed), str(count), ops, exp, stats, wit], env=env, timeout=3000)
     if rc != 0:
         return {"kernel": kernel, "error": "hinternal failed: " + (out + err)[-2000:], "cases": 0, "disagreements": []}
     with open(ops, "rb") as fi, open(got, "wb") as fo:
@@ -199,6 +200,16 @@ def correspondence(kernel, seed, count, tier, workdir):
                     dis.append(None)
     ndis = len(dis)
     dis = [d for d in dis if d]
+    # end-to-end witnesses of the disagreeing operations (kernels that provide them, see emitW in hinternal)
+    try:
+        want = {d["index"]: d for d in dis}
+        if want and os.path.exists(wit):
+            with open(wit, encoding="utf8", errors="replace") as fw:
+                for i, line in enumerate(fw):
+                    if i in want and line.strip():
+                        want[i]["witness"] = json.loads(line)
+    except Exception:
+        pass
     st = {}
     try:
         st = json.load(open(stats))
@@ -408,6 +419,31 @@ def main(argv):
                             break
                 broken.append({"kind": "correspondence", "name": c["kernel"], "detail": "%d of %d cases disagree" % (c["disagreement_count"], c["cases"]), "first": first, "concrete": concrete})
 
+    # 3b. a disagreeing operation that comes with an end-to-end witness is replayed on the REAL code through the
+    # search harness: if the property itself fails on it, that input is the replay of the violation
+    witness_violations = []
+    if not tools.get("hapi"):
+        tried = 0
+        for c in corr:
+            for d in c.get("disagreements", []):
+                w = d.get("witness")
+                if not w or tried >= 6:
+                    continue
+                tried += 1
+                pf = os.path.join(workdir, "witness-%d.json" % tried)
+                json.dump({"search": w["search"], "case": w["case"]}, open(pf, "w"))
+                env = dict(os.environ, VERIF_NODE_DIR=os.path.join(VERIF, "node"), VERIF_BIN=BIN, VERIF_DRIVER=DRIVER, VERIF_REPO=REPO)
+                wd = os.path.join(workdir, "witness-wd-%d" % tried)
+                os.makedirs(wd, exist_ok=True)
+                try:
+                    rc2, out2, err2 = sh([os.path.join(BIN, "hapi"), "replay", pf, wd], env=env, timeout=600)
+                    res2 = json.loads(out2)
+                    for v in res2.get("violations", [])[:1]:
+                        witness_violations.append(dict(v, search=w["search"], replay=v.get("replay") or w["case"],
+                                                       what="%s [witness of disagreeing %s operation: %s]" % (v.get("what"), c["kernel"], d.get("op", "")[:200])))
+                except Exception:
+                    pass
+
     # 4. search (standing sweep; boosted when something above broke)
     searches = []
     if not args.skip_search and not tools.get("hapi"):
@@ -442,6 +478,7 @@ def main(argv):
                         known_lines.append("KNOWN-FINDING: property=%s %s" % (prop, k.get("what", "")))
                 except Exception as e:
                     broken.append({"kind": "tie", "name": "known-finding probe failed to run", "detail": str(e)})
+    violations.extend(witness_violations)
     for r in searches:
         for v in r.get("violations", []):
             k = match_known(known, prop, v.get("class"))
